@@ -9,6 +9,7 @@ pid, tests = sys.argv[1], sys.argv[2]
 chk = sys.argv[3] if len(sys.argv) > 3 else pid
 wt = "/tmp/seed_" + pid.lower()
 summary = []
+KOFF = int(os.environ.get("KOFF", "0"))  # second wave: out/1..3 are kept as seeded/<Cxx>/4..6
 for k in ("1", "2", "3"):
     d = os.path.join(wt, "out", k)
     if not os.path.isfile(os.path.join(d, "patch.diff")):
@@ -32,9 +33,9 @@ for k in ("1", "2", "3"):
     line = f"{pid}/{k}: demo_ok={ok_demo} tests_ok={ok_tests} [{last.strip('= ')}] -> {cls} {tie[0] if tie else ''}"
     if ok_demo and ok_tests:
         subprocess.run([sys.executable, os.path.join(V, "tools/keep_seed.py"), pid, os.path.join(wt, "out"), k, notes[0][:300],
-                        "first run: " + cls, f"demo clean=0 patched=1; pytest {tests}: {last.strip('= ')}; tools/mutcheck.sh patch {chk}"], capture_output=True)
+                        "first run: " + cls, f"demo clean=0 patched=1; pytest {tests}: {last.strip('= ')}; tools/mutcheck.sh patch {chk}", str(int(k) + KOFF)], capture_output=True)
         if chk != pid:
-            f = os.path.join(V, "seeded", pid, k, "meta.json"); mm = json.load(open(f)); mm["caught_by_check"] = chk; json.dump(mm, open(f, "w"), indent=1)
+            f = os.path.join(V, "seeded", pid, str(int(k) + KOFF), "meta.json"); mm = json.load(open(f)); mm["caught_by_check"] = chk; json.dump(mm, open(f, "w"), indent=1)
         line += " KEPT"
     summary.append(line)
     print(line, flush=True)
